@@ -93,6 +93,9 @@ class History(object):
                     self.ref.add_link(a, b)
             elif kind == "we":
                 ps = [self.pool[i].prefix(k) for i, k in item[1]]
+                for p in ps:
+                    if self.ref.prefixes.has(p.lru):
+                        E.assume(False)      # template not applicable: the prefix is already attached
                 E.call("create_webentity", self.t.create_webentity, [p.lru for p in ps], _allowed=())
                 for p in ps:
                     self.ref.name(p)
